@@ -367,11 +367,13 @@ func (c *copier) copy(ctx context.Context, src, srcComponents, target string, ov
 	}
 
 	if include {
-		if err := c.removeTargetIfNeeded(target, fi, targetFi); err != nil {
+		// parents first: creating them checks that they are real directories,
+		// so that the target is not removed through a symlinked parent
+		if err := c.createParentDirs(src, overwriteTargetMetadata); err != nil {
 			return err
 		}
 
-		if err := c.createParentDirs(src, overwriteTargetMetadata); err != nil {
+		if err := c.removeTargetIfNeeded(target, fi, targetFi); err != nil {
 			return err
 		}
 	}
